@@ -1,11 +1,11 @@
 """C09: notify / free / create on related notes is safe (sequential half)."""
 from checks import e3check
 
-QUICK = ['ns_h_expiry_R1']
-THOROUGH = ['ns_h_free_adopt_R1', 'note_freechild_notifyroot_R3']
+QUICK = ['ns_h_free_adopt_R1']
+THOROUGH = ['note_freechild_notifyroot_R3']
 scenarios, jobs, confirm, info = e3check.make('C09', QUICK, THOROUGH,
-    'SEQUENTIAL HALF ONLY, and only in the thorough tier: harness/e3/note_seq.c h_free_adopt - after nsync_note_free(child) the grandchild is adopted by the root (a later notify(root) reaches it), every note can then be '
-    'freed, and no access touches a freed note (liveness bit per object in the memory model). The quick tier only re-checks the tree construction (h_expiry). The concurrent half of the property (2..4 threads notifying, '
+    'SEQUENTIAL HALF ONLY: harness/e3/note_seq.c h_free_adopt, one thread, one context - after nsync_note_free(child) the grandchild is adopted by the root (a later notify(root) reaches it), every note can then be '
+    'freed, and no access touches a freed note (liveness bit per object in the memory model), for every deadline assignment of the tree. The concurrent half of the property (2..4 threads notifying, '
     'freeing and creating related notes) is NOT decided: see DESIGN.md section 6.',
     ['nsync_note_free', 'nsync_note_new', 'nsync_note_notify', 'note_notify_child'],
     ['every concurrent behaviour of notes'])
